@@ -109,6 +109,10 @@ def make_model(config):
             j = 0
             e[1] = True
             e[4] = False
+            if len(st.frames[cur]) == 1:
+                # a fast-packet message that fits into its first frame is complete at once
+                expected = int.from_bytes(st.msgs[cur], "little")
+                e[3] = True
         else:
             j = ev[2]
             if e[1] and not e[3] and j not in e[2]:
@@ -258,6 +262,9 @@ def configs(ctx):
         out.append(make_config(f"one-012-{tag}", [(A, 1, 255, c012)], pad))
         out.append(make_config(f"one-0102-{tag}", [(A, 1, 255, c0102)], pad))
     out.append(make_config("one-enc8-short", [(B, 1, 255, c8)], None))
+    cshort = [(0, 16), (1, 5), (0, 16), (2, 6)]          # messages that fit into one frame between multi-frame ones
+    out.append(make_config("one-single-frame-msgs-short", [(A, 1, 255, cshort)], None))
+    out.append(make_config("one-single-frame-msgs-padFF", [(A, 1, 255, cshort)], 0xFF))
     out.append(make_config("two-src-short", [(A, 1, 255, c012), (A, 2, 255, c012)], None))
     out.append(make_config("two-pgn-padFF", [(A, 1, 255, c012), (B, 1, 255, c012)], 0xFF))
     out.append(make_config("two-dst-short", [(A, 1, 1, c0102), (A, 1, 2, c012)], None))
